@@ -53,6 +53,9 @@ def variadic_op(
         values = _via_dtype(op, via_dtype, data, cast_return=cast_return)
 
     if (out_null := functools.reduce(_or_nulls, nulls)) is not None:
+        if any(out_null is null for null in nulls):
+            # do not share the null field with an argument
+            out_null = out_null.copy()
         dtype = dtypes.into_nullable(values.dtype)
         return ndx.Array._from_fields(dtype, values=values, null=out_null)
     else:
@@ -115,6 +118,9 @@ def _via_dtype(
     out_null = functools.reduce(_or_nulls, nulls)
 
     if out_null is not None:
+        if any(out_null is null for null in nulls):
+            # do not share the null field with an argument
+            out_null = out_null.copy()
         out_value = ndx.Array._from_fields(
             dtypes.into_nullable(out_value.dtype), values=out_value, null=out_null
         )
